@@ -403,6 +403,35 @@ func RunC16(r *core.Run) {
 	})
 	st.Exhaustive = true
 	st.Space = "SIPMethod values 0..255"
+	// the byte slices handed out by Name() are the caller's to append to: doing so must not change
+	// what any lookup returns afterwards (names must not sit in shared storage with spare capacity)
+	st = r.Stage("append-to-returned-names", 1, func(w *core.Worker, idx int64) {
+		var what string
+		pan, pmsg, _ := core.Guard(func() {
+			for m := 1; m <= len(ref.MethodList); m++ {
+				x := append(sipsp.SIPMethod(m).Name(), " sip:user@example.org SIP/2.0\r\n"...)
+				_ = x
+			}
+			for m := 1; m <= len(ref.MethodList); m++ {
+				nm := sipsp.SIPMethod(m).Name()
+				var fl sipsp.PFLine
+				line := []byte(ref.MethodList[m-1] + " sip:a@b SIP/2.0\r\nX: y\r\n\r\n")
+				_, e := sipsp.ParseFLine(line, 0, &fl)
+				if string(nm) != ref.MethodList[m-1] || int(sipsp.GetMethodNo([]byte(ref.MethodList[m-1]))) != m || e != sipsp.ErrHdrOk || int(fl.MethodNo) != m {
+					what = fmt.Sprintf("after appending to the slices returned by Name(): SIPMethod(%d).Name()=%q, GetMethodNo(%q)=%d, ParseFLine(%q) -> %s method %d", m, nm, ref.MethodList[m-1],
+						sipsp.GetMethodNo([]byte(ref.MethodList[m-1])), line, errName(e), fl.MethodNo)
+					return
+				}
+			}
+		})
+		w.Eval(2 * len(ref.MethodList))
+		if pan || what != "" {
+			w.Fail("shared-name-storage", func() *core.Violation { return core.V(what+pmsg, nil, nil) })
+		}
+		w.NontrivialEnum()
+	})
+	st.Exhaustive = true
+	st.Space = "all 14 method names: append to Name(), then every lookup again"
 	r.Require("C16 table members seen", r.Counter("table_members"), 1000)
 }
 
@@ -504,6 +533,59 @@ func checkIP4(w *core.Worker, s []byte) {
 				s, po, errName(pe), dst, mx, errName(wantE), g), s, nil)
 		})
 	}
+	// a destination of another size: the bytes that fit are the leading groups, nothing else is written
+	{
+		var d [8]byte
+		for i := range d {
+			d[i] = 0xAA
+		}
+		dl := []int{1, 2, 3, 5, 8}[(len(s)+int(core.HashBytes(s)>>8&7))%5]
+		var cok bool
+		var co, cl int
+		var sok bool
+		panS, _, _ := core.Guard(func() {
+			sok, _, _ = sipsp.IP4Prefix(s, d[:dl])
+		})
+		w.Eval(1)
+		bad := panS || !sok
+		for i := 0; i < len(d) && !bad; i++ {
+			switch {
+			case i < dl && i < 4:
+				bad = d[i] != g[i]
+			default:
+				bad = d[i] != 0xAA
+			}
+		}
+		if bad {
+			w.Fail("prefix-dst-size", func() *core.Violation {
+				return core.V(fmt.Sprintf("IP4Prefix(%q, dst of %d bytes) -> ok=%v panic=%v, destination array now %v; expected the first min(%d,4) groups of %v and nothing else written", s, dl, sok, panS, d, dl, g), s, nil)
+			})
+			return
+		}
+		for i := range d {
+			d[i] = 0xAA
+		}
+		panS, _, _ = core.Guard(func() { cok, co, cl = sipsp.ContainsIP4(s, d[:dl]) })
+		w.Eval(1)
+		if !panS && cok && co >= 0 && cl >= 0 && co+cl <= len(s) {
+			cg, full := ref.IP4Groups(s[co : co+cl])
+			bad = !full
+			for i := 0; i < len(d) && !bad; i++ {
+				switch {
+				case i < dl && i < 4:
+					bad = d[i] != cg[i]
+				default:
+					bad = d[i] != 0xAA
+				}
+			}
+			if bad {
+				w.Fail("contains-dst-size", func() *core.Violation {
+					return core.V(fmt.Sprintf("ContainsIP4(%q, dst of %d bytes) reports span %q, destination array now %v; expected the first min(%d,4) groups %v and nothing else written", s, dl, s[co:co+cl], d, dl, cg), s, nil)
+				})
+				return
+			}
+		}
+	}
 	// nil destination must not change the verdict
 	var nok bool
 	var no int
@@ -580,6 +662,11 @@ func RunC20(r *core.Run) {
 		n := rr.Range(0, 4)
 		b = append(b, rr.Bytes(rr.Intn(40), []byte("abcxyz-_@0123456789. :[]\xb0\xb5\xb9\x80\xff"))...)
 		for i := 0; i < n; i++ {
+			if rr.Intn(5) == 0 {
+				// a long run of digits directly in front of (and so part of the first group's
+				// candidates of) the next address
+				b = append(b, rr.Bytes([]int{8, 9, 10, 17, 18, 19, 20, 21, 30, 40}[rr.Intn(10)], []byte("0123456789"))...)
+			}
 			switch rr.Intn(4) {
 			case 0:
 				b = append(b, fmt.Sprintf("%d.%d.%d.%d", rr.Intn(256), rr.Intn(256), rr.Intn(256), rr.Intn(256))...)
